@@ -115,6 +115,36 @@ func raceTransforms(jsOnly bool) error {
 	for _, j := range jobs {
 		j.solo = run(j)
 	}
+	// cold start: a Schema object nobody has used yet, its first records transformed by several
+	// goroutines at once (whatever a schema sets up lazily on first use is set up under contention)
+	for _, j := range jobs {
+		text := ""
+		for t, s := range byText {
+			if s == j.schema {
+				text = t
+			}
+		}
+		fresh, err, _ := hx.NewSchema("s", text)
+		if err != nil {
+			return fmt.Errorf("schema %s: %v", j.name, err)
+		}
+		cold := &raceJob{name: j.name, schema: fresh, input: j.input, ext: j.ext}
+		var cwg sync.WaitGroup
+		got := make([]string, 4)
+		for g := range got {
+			cwg.Add(1)
+			go func(g int) {
+				defer cwg.Done()
+				got[g] = run(cold)
+			}(g)
+		}
+		cwg.Wait()
+		for _, o := range got {
+			if o != j.solo {
+				return fmt.Errorf("job %s, first use of a new Schema object by 4 goroutines at once, differs from its solo run:\n%s\n-- solo:\n%s", j.name, o, j.solo)
+			}
+		}
+	}
 	const rounds = 40
 	var wg sync.WaitGroup
 	errs := make(chan error, 64)
